@@ -647,6 +647,11 @@ class ImportanceNestedSampler(BaseNestedSampler):
             return None
 
     @property
+    def checkpoint_iterations(self) -> List[int]:
+        """Iterations at which the sampler was checkpointed."""
+        return self.history["checkpoint_iterations"]
+
+    @property
     def reached_tolerance(self) -> bool:
         """Indicates if tolerance has been reached.
 
